@@ -239,11 +239,11 @@ def builder_queries(ctx, b, kinds, tag=""):
   return ke
 
 
-def unit_key_module(module):
+def unit_key_module(name, modules):
   def run(ctx):
     from mujoco_warp._src import warp_util
 
-    builders = [b for b in ps.scan_builders(src_dir()) if b["module"] == module]
+    builders = [b for b in ps.scan_builders(src_dir()) if b["module"] in modules]
     ctx.encode(warp_util.cache_kernel)
     ctx.bound(int_args=f"0 <= x <= {INT_HI}", list_len="<= 3 (quick) / 5 (thorough) entries per dispatch list")
     ctx.assume(
@@ -273,7 +273,7 @@ def unit_key_module(module):
       sess = ctx.session(hm.axioms + [z3.Not(A.pvs[i].isbool), z3.Not(B.pvs[i].isbool)])
       ctx.reach(sess, f"twin:model-has-hash(-1)==hash(-2)/{b['name']}", z3.And(ps.keys_equal(k1, k2), A.pvs[i].v == -1, B.pvs[i].v == -2))
 
-  return (f"key/{module}", run)
+  return (f"key/{name}", run)
 
 
 def unit_key_cross(ctx):
@@ -695,7 +695,7 @@ def replay_dispatch(ctx, hname, earlier, current, t1, t2):
     a, b = kh.mval(model, t1), kh.mval(model, t2)
     inv = {v: k for k, v in GT.items()}
     # the current model reduced to the two geom types of the counterexample (keeps compile time of the replay small)
-    geoms = [inv[a], inv[b]] if inv.get(a) != "plane" else [inv[a], inv[b]]
+    geoms = list(current[0]) if len(current[0]) <= 4 else [inv[a], inv[b]]
     os.makedirs(os.path.join(report.VERIF, "replays", PID), exist_ok=True)
     path = os.path.join(report.VERIF, "replays", PID, f"dispatch.{hname}.json")
     spec = {"property": PID, "earlier": [[g, f] for g, f in earlier], "current": [geoms, current[1]], "type1": a, "type2": b}
@@ -776,7 +776,8 @@ def unit_inventory(ctx):
 
 def main(tier, seed, only=None):
   mods = sorted({b["module"] for b in ps.scan_builders(src_dir())})
-  units = [unit_key_module(mn) for mn in mods]
+  big = [mn for mn in mods if mn in ("constraint", "solver")]
+  units = [unit_key_module(mn, [mn]) for mn in big] + [unit_key_module("other", [mn for mn in mods if mn not in big])]
   units.append(("key/cross", unit_key_cross))
   units.append(("key/observed", unit_key_observed))
   units.append(("hashmodel", unit_hashmodel))
